@@ -159,7 +159,7 @@ Definition approve_failover (cfg : config) (cs : list (host * node_state)) (msta
 (* approveSwitchover: None = approved, Some code = rejected *)
 Definition approve_switchover (cfg : config) (sw : switch_rec) (active : list host) (cs : list (host * node_state)) : option Z :=
   if negb (is_failover sw) && (0 <? c_switchover_max_attempts cfg) && (c_switchover_max_attempts cfg <=? sw_run_count sw) then Some 814
-  else if 0 <? sw_run_count sw then None
+  else if (0 <? sw_run_count sw) || sw_started sw then None      (* approved before: a retry, or an attempt whose manager died *)
   else if check_quorum (c_semi_sync cfg) (c_wait_count cfg) (Z.of_nat (length active)) (count_alive_ha_slaves_within active cs) then None
   else Some 822.
 
